@@ -1,7 +1,7 @@
 (* C02 — Version negotiation settles both sides on the highest common version.
    Statements only; proofs are in Proofs/NegotiateP.v. *)
 From Coq Require Import List NArith ZArith Bool Permutation String.
-From GP Require Import Base.Val Base.Bytes Base.GoStrings Model.Negotiate Proofs.NegotiateP.
+From GP Require Import Base.Val Base.Bytes Base.GoStrings Model.Negotiate Proofs.NegotiateP Proofs.RoundTripP.
 Import ListNotations.
 Open Scope Z_scope.
 
@@ -78,6 +78,27 @@ Proof. exact expected_version_is_pick. Qed.
 Definition ex_cfg := {| s_version := 0; s_plugins := None;
   s_versioned := [(2, {| ps_id := 12; ps_kind := KGrpc |}); (3, {| ps_id := 13; ps_kind := KGrpc |}); (4, {| ps_id := 14; ps_kind := KNet |})];
   s_factory := true |}.
+(* the encodings on the wire: Atoi(Itoa(z)) = z for every int64; the version list the client writes into
+   PLUGIN_PROTOCOL_VERSIONS is the list the plugin reads *)
+Theorem C02_decimal_roundtrip : forall z, int_min <= z <= int_max -> atoi (itoa z) = Some z.
+Proof. exact atoi_itoa. Qed.
+
+Theorem C02_version_list_roundtrip : forall ks, Forall in64 ks -> parse_versions (env_of_keys ks) = ks.
+Proof. exact versions_roundtrip. Qed.
+
+(* both ends over those encodings, with no assumption left about what was parsed: the client writes its versions,
+   the plugin picks and prints a decimal field, the client parses it *)
+Theorem C02_negotiation_over_the_wire : forall sc cc,
+  Forall in64 (mkeys (client_map cc)) -> Forall in64 (mkeys (server_map sc)) -> mkeys (server_map sc) <> [] ->
+  let r := server_pick sc (env_of_keys (mkeys (client_map cc))) in
+  match client_accept cc (itoa (fst (fst r))) with
+  | Some (v, pc) =>
+      v = fst (fst r) /\ mget (client_map cc) v = Some pc /\ snd r = mget (server_map sc) v /\
+      is_max_common v (mkeys (server_map sc)) (mkeys (client_map cc))
+  | None => disjoint (mkeys (server_map sc)) (mkeys (client_map cc)) /\ is_min (fst (fst r)) (mkeys (server_map sc))
+  end.
+Proof. exact negotiation_over_the_wire. Qed.
+
 Example C02_nonvacuous :
   server_pick ex_cfg (bs "1,2,3,5"%string) = (3, PGrpc, Some {| ps_id := 13; ps_kind := KGrpc |}) /\
   server_pick ex_cfg (bs "5,3,x,2,1"%string) = (3, PGrpc, Some {| ps_id := 13; ps_kind := KGrpc |}) /\
